@@ -123,7 +123,7 @@ def main():
         "not_applicable": na,
         "notes": "All checks: exit 0 held / 1 violation / 2 harness error. VERIF_SEED selects the random streams; "
                  "PYTHONHASHSEED is pinned to 0 by the runner; a quarter of every check's cases additionally runs in "
-                 "a python -O child. known_findings.json lists the genuine defects found: 14 repaired by fix: "
+                 "a python -O child. known_findings.json lists the genuine defects found: 15 repaired by fix: "
                  "commits in /repo (status fixed, suppress nothing) and one recorded as known (C14, an atom record of "
                  "nine numeric tokens is indistinguishable from a box line): C14 prints a KNOWN-FINDING line for it "
                  "and exits 0. seeded/ holds independent property-breaking changes "
